@@ -613,11 +613,17 @@ class Driver:
         info = {'stop': stop, 'gc': eff_gc, 'raised': None, 'changed': False,
                 'pre': pre, 't': t}
         self.last_pack = info
+        before = self.sim.fs.read_bytes(self.path) \
+            if self.kind == 'file' else None
         try:
             if gc is None:
                 st.pack(t, referencesf)
             else:
                 st.pack(t, referencesf, gc=gc)
+            # a pack that frees nothing leaves the file (and its back
+            # pointers) as it is
+            info['rewritten'] = before is None or \
+                self.sim.fs.read_bytes(self.path) != before
         except Exception as e:      # noqa: B902
             info['raised'] = e
             # a pack that cannot complete leaves the database unchanged
@@ -698,7 +704,7 @@ class Driver:
                               'an original record' % (oid, tid))
                     continue
                 nr = r.copy()
-                if nr.kind == BACK:
+                if nr.kind == BACK and info.get('rewritten', True):
                     nr.kind = DATA
                     nr.src_tid = None
                 kept.append(nr)
